@@ -146,6 +146,10 @@ class Taint:
         self.ret_taint: dict[Func, bool] = {}
         self.param_taint: dict[Func, set] = {}
         self.attr_taint: dict[tuple, bool] = {}    # (class fq, attr) -> tainted
+        # a table whose *values* are sequences built in iteration order of an unordered
+        # collection: returned by a function / kept in an attribute
+        self.ret_values_taint: dict[Func, bool] = {}
+        self.attr_values_taint: dict[tuple, bool] = {}
         self.sink_funcs: dict[Func, str] = {}      # functions that (transitively) sink
         self.findings: list[Finding] = []
         self.examined = []                         # (func, node, verdict text)
@@ -380,6 +384,10 @@ class Taint:
                 if fn.attr in ("get", "setdefault", "pop") and dotted(fn.value) \
                         and dotted(fn.value) + "@values" in tainted:
                     return True
+                if fn.attr in ("get", "setdefault", "pop") and isinstance(fn.value, ast.Attribute) \
+                        and dotted(fn.value.value) == "self" and f.cls is not None and any(
+                            self.attr_values_taint.get((c_.fq, fn.value.attr)) for c_ in P.mro(f.cls)):
+                    return True
                 if fn.attr == "join":
                     return any(self.is_tainted(a, f, tainted) for a in e.args)
                 if fn.attr == "format":
@@ -599,6 +607,23 @@ class Taint:
                 if r and not self.ret_taint.get(f):
                     self.ret_taint[f] = True
                     changed = True
+                # a returned table whose values were built in tainted order
+                for n in ast.walk(f.node):
+                    if isinstance(n, ast.Return) and isinstance(n.value, ast.Name) \
+                            and n.value.id + "@values" in t and not self.ret_values_taint.get(f):
+                        self.ret_values_taint[f] = True
+                        changed = True
+                if f.cls is not None:
+                    for n in ast.walk(f.node):
+                        if isinstance(n, ast.Assign) and isinstance(n.value, ast.Call) and any(
+                                self.ret_values_taint.get(c_) for c_ in self.resolve_call(n.value, f)):
+                            for tg in n.targets:
+                                d = dotted(tg)
+                                if d and d.startswith("self.") and d.count(".") == 1:
+                                    key = (f.cls.fq, d[5:])
+                                    if not self.attr_values_taint.get(key):
+                                        self.attr_values_taint[key] = True
+                                        changed = True
                 # attribute summaries
                 if f.cls is not None:
                     for n in ast.walk(f.node):
